@@ -85,3 +85,10 @@ func Harness_C04_polygon_reference_parity() {
 	vr.Assert("Polygon.ReferencePoint containment is the parity over its loops", p.ReferencePoint().Contained == want)
 	vr.Reach("end")
 }
+
+// Every index-based containment path (Loop/Polygon.ContainsPoint above the brute-force
+// threshold, ContainsPointQuery) starts with ShapeIndexIterator.LocatePoint: a point whose
+// leaf cell lies in an index cell must be located in that cell (a miss is answered "not
+// contained"), for every index of up to three cells and every leaf, first and last leaf of
+// a cell included.  (Same body as the C06 harness of LocatePoint.)
+func Harness_C04_index_path_locate_point() { vrLocatePointBody() }
